@@ -143,21 +143,6 @@ Qed.
 
 (* ---- readable statements ---- *)
 
-(* the property clause as a proposition *)
-Definition visible_complete (b : bucket) : Prop :=
-  forall id cid files lbl, bget b (id, FMeta) = Some (MetaO cid files lbl) ->
-    forall f sz, In (f, sz) files -> f <> FMeta -> bget b (id, f) = Some (Blob sz).
-
-Lemma binv_visible U b : binv U b -> visible_complete b.
-Proof.
-  intros [_ Hco] id cid files lbl Hm f sz Hin Hf.
-  destruct (Hco _ _ Hm) as [bl [cid' [lbl' [Hu [Ho Hall]]]]]. inversion Ho; subst.
-  apply Hall; [exact Hin|].
-  unfold files_of in Hin. apply in_app_or in Hin as [Hin|Hin].
-  - apply in_map_iff in Hin as [[n z] [Heq _]]. inversion Heq; subst. reflexivity.
-  - simpl in Hin. destruct Hin as [H|[H|[]]]; inversion H; subst; [reflexivity|congruence].
-Qed.
-
 (* the model run of a list of (action, crash point): every bucket state passed through *)
 Fixpoint run_states (U : univ) (st : state) (acts : list (action * option nat)) : option (list bucket) :=
   match acts with
